@@ -129,7 +129,9 @@ class C16(core.Check):
                   "clear), deletions with any other step, extended-slice assignment, reverse and sort, with a theorem that these "
                   "families are exhaustive.  The focus arithmetic the theorems speak about is regenerated from the source each "
                   "run (py2v); the wiring of each method around it is a hand model tied by an exact extracted-model "
-                  "correspondence (67k cases per quick run, walkers included) and an independent built-in-list oracle.")
+                  "correspondence (127k cases per quick run: the bare list, SimpleFocusListWalker, and the contents lists of "
+                  "Pile, Columns and GridFlow including their property-setter forms; MonitoredList as the same list without "
+                  "a focus) and an independent built-in-list oracle; SimpleListWalker is judged by the oracle only.")
     level_note = ("Trusted: Coq kernel, py2v translator, ExtrOcamlBasic extraction + OCaml driver, the hand-written method wiring "
                   "and PyList.v list semantics (validated against the implementation and the built-in list, not proved against "
                   "CPython), the Python oracle.  Assumes a valid initial state, identity-compared items, no key= callables.")
@@ -244,11 +246,65 @@ class C16(core.Check):
         return {"outs": outs, "items": [getattr(o, "n", -1) for o in c.contents], "focus": fo()}
 
     # ---------- model wire format ----------
-    def encode(self, case):
-        if case.get("kind", "mfl") not in ("mfl", "sflw"):
-            return None          # plain monitored lists: judged by the oracle only
-        l = [len(case["items"])] + list(case["items"]) + [case["focus"]]
+    @staticmethod
+    def container_model_ops(case):
+        """A container case as MonitoredFocusList operations on the item ids: the contents list of Pile / Columns /
+        GridFlow *is* a MonitoredFocusList, and the property-setter forms (c.contents = x, c.contents += x,
+        c.contents *= k) are the list operation followed by a slice assignment of the whole list.  Returns
+        (model ops, how many model ops each case op became), or None when the case uses behaviour of the container
+        itself rather than of its list (focus_position on an empty container, sort of widget tuples)."""
+        cur = list(case["items"])
+        ids = objs_proxy({}, lambda i: i)
+        ops, spans = [], []
         for op in case["ops"]:
+            k = op[0]
+            if k == "sort" or (k == "setfocus" and not cur):
+                return None
+            if k == "assign":
+                new = [["setslice", None, None, None, list(op[1])]]
+            elif k == "iadd_prop":
+                new = [["iadd", list(op[1])], ["setslice", None, None, None, cur + list(op[1])]]
+            elif k == "imul_prop":
+                new = [["imul", op[1]], ["setslice", None, None, None, cur * op[1]]]
+            else:
+                new = [op]
+            for o in new:
+                if o[0] == "setfocus":
+                    continue
+                before = list(cur)
+                try:
+                    cur = apply_op(cur, o, ids)
+                except (IndexError, ValueError, TypeError):
+                    cur = before
+            ops += new
+            spans.append(len(new))
+        return ops, spans
+
+    def encode(self, case):
+        kind = case.get("kind", "mfl")
+        ops = case["ops"]
+        if kind in CONTAINERS:
+            m = self.container_model_ops(case)
+            if m is None:
+                return None
+            ops = m[0]
+        elif kind == "slw":
+            return None          # SimpleListWalker keeps a plain clamped index: judged by the oracle only
+        elif kind == "ml":
+            # MonitoredList = the modelled list without its focus; the one place where MonitoredFocusList's own wiring
+            # differs observably is sort() of an empty list (early return, no modified callback): not comparable
+            cur = list(case["items"])
+            ids = objs_proxy({}, lambda i: i)
+            for o in ops:
+                if o[0] == "setfocus" or (o[0] == "sort" and not cur):
+                    return None
+                before = list(cur)
+                try:
+                    cur = apply_op(cur, o, ids)
+                except (IndexError, ValueError, TypeError):
+                    cur = before
+        l = [len(case["items"])] + list(case["items"]) + [case["focus"]]
+        for op in ops:
             k = op[0]
             l.append(OPC[k])
             if k in ("delitem", "pop", "imul", "setfocus", "append", "remove"):
@@ -268,20 +324,31 @@ class C16(core.Check):
     def decode(self, case, ints):
         it = iter(ints)
         outs = []
+        cont = case.get("kind", "mfl") in CONTAINERS
+        plain = case.get("kind", "mfl") == "ml"
+        spans = self.container_model_ops(case)[1] if cont else [1] * len(case["ops"])
         try:
-            for _ in case["ops"]:
-                err = ERRN.get(next(it), "?")
-                nev = next(it)
-                evs = []
-                for _ in range(nev):
-                    t = next(it)
-                    evs.append([0] if t == 0 else [1, next(it)])
-                f = next(it)
-                outs.append([err, evs, None if f == 0 else next(it)])
+            for span in spans:
+                sub = []
+                for _ in range(span):
+                    err = ERRN.get(next(it), "?")
+                    nev = next(it)
+                    evs = []
+                    for _ in range(nev):
+                        t = next(it)
+                        evs.append([0] if t == 0 else [1, next(it)])
+                    f = next(it)
+                    sub.append([err, evs, None if f == 0 else next(it)])
+                if cont:     # callbacks of a container's list are its own business: only outcome and focus are compared
+                    outs.append([next((o[0] for o in sub if o[0]), None), [], sub[-1][2]])
+                elif plain:  # MonitoredList = the same list without a focus: outcome and modified callbacks are compared
+                    outs.append([sub[0][0], [e for e in sub[0][1] if e[0] == 0], None])
+                else:
+                    outs.append(sub[0])
             n = next(it)
             items = [next(it) for _ in range(n)]
             f = next(it)
-            focus = None if f == 0 else next(it)
+            focus = None if f == 0 or plain else next(it)
         except StopIteration:
             return {"malformed": ints[:50]}
         return {"outs": outs, "items": items, "focus": focus}
